@@ -403,6 +403,30 @@ class Runner:
         except Exception as e:
             return ["<unavailable: %s>" % e]
 
+    # ---- self-test of the replay build ----------------------------------------------
+    def link_test(self, h):
+        """does the native replay of this harness compile and link?  (a counterexample whose replay
+        does not build is reported as UNCONFIRMED, so this is checked before it is needed)"""
+        if h.replay_mode == "trace" or h.isr:
+            return True, "trace-only harness"
+        d = os.path.join(self.work, h.name)
+        os.makedirs(d, exist_ok=True)
+        if h.pre:
+            try:
+                h.pre(h, d, self)
+            except Exception as e:
+                return False, "pre hook: %r" % e
+        srcs = self.sources(h) + [os.path.join(d, g) for g in getattr(h, "generated", [])]
+        srcs.append(os.path.join(VERIF, "lib/replay_rt.c"))
+        cmd = ["gcc", "-std=gnu11", "-g", "-O0", "-w", "-DVERIF_REPLAY"] + inc_flags(["-I" + d]) + BASE_DEFS + ["-D" + x for x in h.defines] + \
+            [c for c in h.cflags] + list(h.replay_cflags) + srcs + ["-o", os.path.join(d, "linktest.bin"), "-lm", "-lpthread"]
+        p = subprocess.run(cmd, capture_output=True, text=True)
+        try:
+            os.remove(os.path.join(d, "linktest.bin"))
+        except OSError:
+            pass
+        return p.returncode == 0, (p.stderr or "")[-600:]
+
     # ---- replay --------------------------------------------------------------------
     def replay(self, h, entry, outdir):
         """build the harness natively and run it on the values of the trace"""
@@ -491,6 +515,7 @@ def main():
     ap.add_argument("--jobs", type=int, default=int(os.environ.get("VERIF_JOBS", "12")))
     ap.add_argument("--replay")
     ap.add_argument("--no-evidence", action="store_true")
+    ap.add_argument("--linktest", action="store_true", help="only check that the native replay build of every harness compiles and links")
     a = ap.parse_args()
     if a.replay:
         sys.exit(subprocess.call([os.path.join(a.replay, "run.sh")]))
@@ -507,6 +532,18 @@ def main():
     work = os.path.join(VERIF, ".work", "%s-%d" % (prop, os.getpid()))
     os.makedirs(work, exist_ok=True)
     R = Runner(prop, tier, work, a.keep)
+    if a.linktest:
+        bad = 0
+        seen = set()
+        for h in hs:
+            key = (h.src, tuple(h.defines))
+            ok, msg = R.link_test(h)
+            if not ok:
+                bad += 1
+                log("LINKTEST-FAILED property=%s harness=%s %s" % (prop, h.name, msg.replace("\n", " | ")[-500:]))
+        log("LINKTEST property=%s tier=%s harnesses=%d failed=%d" % (prop, tier, len(hs), bad))
+        shutil.rmtree(work, ignore_errors=True)
+        sys.exit(2 if bad else 0)
     # heavy harnesses first
     hs.sort(key=lambda h: -h.timeout * h.weight)
     results = []
